@@ -376,50 +376,74 @@ func (r *rewriter) stmt(s ast.Stmt, points bool) []ast.Stmt {
 			cc.Body = r.stmts(cc.Body, points)
 		}
 	case *ast.LabeledStmt:
+		if sel, ok := x.Stmt.(*ast.SelectStmt); ok {
+			return []ast.Stmt{r.selectStmt(sel, points, x.Label)}
+		}
 		ns := r.stmt(x.Stmt, points)
 		x.Stmt = ns[0]
 		return append([]ast.Stmt{x}, ns[1:]...)
 	case *ast.SelectStmt:
-		r.count("select")
-		hasDefault := false
-		var cases []ast.Expr
-		sw := &ast.SwitchStmt{Body: &ast.BlockStmt{}}
-		idx := 0
-		for _, c := range x.Body.List {
-			cc := c.(*ast.CommClause)
-			body := r.stmts(cc.Body, points)
-			if cc.Comm == nil {
-				hasDefault = true
-				sw.Body.List = append(sw.Body.List, &ast.CaseClause{Body: body})
-				continue
-			}
-			var ch ast.Expr
-			isSend := false
-			switch cm := cc.Comm.(type) {
-			case *ast.SendStmt:
-				ch, isSend = cm.Chan, true
-			case *ast.ExprStmt:
-				ch = cm.X.(*ast.UnaryExpr).X
-			case *ast.AssignStmt:
-				ch = cm.Rhs[0].(*ast.UnaryExpr).X
-			}
-			if isSend {
-				cases = append(cases, r.call("SendCase", ch))
-			} else {
-				cases = append(cases, r.call("RecvCase", ch))
-			}
-			// the native operation is performed inside the chosen case (guaranteed ready)
-			sw.Body.List = append(sw.Body.List, &ast.CaseClause{List: []ast.Expr{&ast.BasicLit{Kind: token.INT, Value: strconv.Itoa(idx)}}, Body: append([]ast.Stmt{cc.Comm}, body...)})
-			idx++
-		}
-		hd := "false"
-		if hasDefault {
-			hd = "true"
-		}
-		sw.Tag = r.call("Select", append([]ast.Expr{ast.NewIdent(hd)}, cases...)...)
-		return []ast.Stmt{sw}
+		return []ast.Stmt{r.selectStmt(x, points, nil)}
 	}
 	return []ast.Stmt{s}
+}
+
+// selectStmt rewrites `select` into a block: typed case holders, then a switch on vsched.Select
+// (which performs the chosen communication itself); received values are read from the holders.
+func (r *rewriter) selectStmt(x *ast.SelectStmt, points bool, label *ast.Ident) ast.Stmt {
+	r.count("select")
+	r.tmp++
+	id := r.tmp
+	hasDefault := false
+	var pre []ast.Stmt
+	var holders []ast.Expr
+	sw := &ast.SwitchStmt{Body: &ast.BlockStmt{}}
+	idx := 0
+	for _, c := range x.Body.List {
+		cc := c.(*ast.CommClause)
+		body := r.stmts(cc.Body, points)
+		if cc.Comm == nil {
+			hasDefault = true
+			sw.Body.List = append(sw.Body.List, &ast.CaseClause{Body: body})
+			continue
+		}
+		h := ast.NewIdent(fmt.Sprintf("__sel%d_%d", id, idx))
+		var first []ast.Stmt
+		switch cm := cc.Comm.(type) {
+		case *ast.SendStmt:
+			pre = append(pre, &ast.AssignStmt{Lhs: []ast.Expr{h}, Tok: token.DEFINE, Rhs: []ast.Expr{r.call("SendCase", r.expr(cm.Chan), r.expr(cm.Value))}})
+		case *ast.ExprStmt:
+			pre = append(pre, &ast.AssignStmt{Lhs: []ast.Expr{h}, Tok: token.DEFINE, Rhs: []ast.Expr{r.call("RecvCase", r.expr(cm.X.(*ast.UnaryExpr).X))}})
+		case *ast.AssignStmt:
+			pre = append(pre, &ast.AssignStmt{Lhs: []ast.Expr{h}, Tok: token.DEFINE, Rhs: []ast.Expr{r.call("RecvCase", r.expr(cm.Rhs[0].(*ast.UnaryExpr).X))}})
+			rhs := []ast.Expr{&ast.SelectorExpr{X: h, Sel: ast.NewIdent("V")}}
+			if len(cm.Lhs) == 2 {
+				rhs = append(rhs, &ast.SelectorExpr{X: h, Sel: ast.NewIdent("OK")})
+			}
+			first = append(first, &ast.AssignStmt{Lhs: cm.Lhs, Tok: cm.Tok, Rhs: rhs})
+			// silence "declared and not used" for received values that the body ignores
+			if cm.Tok == token.DEFINE {
+				for _, l := range cm.Lhs {
+					if id, ok := l.(*ast.Ident); ok && id.Name != "_" {
+						first = append(first, &ast.AssignStmt{Lhs: []ast.Expr{ast.NewIdent("_")}, Tok: token.ASSIGN, Rhs: []ast.Expr{ast.NewIdent(id.Name)}})
+					}
+				}
+			}
+		}
+		holders = append(holders, h)
+		sw.Body.List = append(sw.Body.List, &ast.CaseClause{List: []ast.Expr{&ast.BasicLit{Kind: token.INT, Value: strconv.Itoa(idx)}}, Body: append(first, body...)})
+		idx++
+	}
+	hd := "false"
+	if hasDefault {
+		hd = "true"
+	}
+	sw.Tag = r.call("Select", append([]ast.Expr{ast.NewIdent(hd)}, holders...)...)
+	var swStmt ast.Stmt = sw
+	if label != nil {
+		swStmt = &ast.LabeledStmt{Label: label, Stmt: sw}
+	}
+	return &ast.BlockStmt{List: append(pre, swStmt)}
 }
 
 func instrument(path string, fc fileCfg) ([]byte, string, error) {
